@@ -4,6 +4,10 @@ import (
 	"fmt"
 	"go/ast"
 	"go/token"
+	"os"
+	"path/filepath"
+	"regexp"
+	"sort"
 	"strings"
 )
 
@@ -22,6 +26,13 @@ func extractAll(f *facts, v1, v2 *pkg, repo string) {
 	for _, fn := range []string{"size", "top", "skip", "remove", "enqueue", "shutdown"} {
 		shapeFact(f, "v2_shape_buffer_"+fn, v2, "buffer.go", "buffer", fn)
 	}
+	for _, fn := range []string{"provision", "getBlob", "createPartitions", "leasePartition"} {
+		shapeFact(f, "v1_shape_lm_"+fn, v1, "azure-blob-lease-manager.go", "azureBlobLeaseManager", fn)
+	}
+	for _, fn := range []string{"Provision", "getBlob", "CreatePartitions", "LeasePartition"} {
+		shapeFact(f, "v2_shape_lm_"+fn, v2, "azure-blob-lease-manager.go", "azureBlobLeaseManager", fn)
+	}
+	sdkCodesFact(f)
 	defaultsFact(f, "v1", v1, "Batcher")
 	defaultsFact(f, "v2", v2, "batcher")
 	setterGuards(f, v2)
@@ -280,4 +291,36 @@ func enqueueFacts(f *facts, gen string, p *pkg, file, recv string) {
 	f.boolean(gen+"_hookBetweenCountAndInsert", incIdx >= 0 && hookIdx > incIdx && insertIdx > hookIdx)
 	f.boolean(gen+"_rollbackOnInsertError", rollback)
 	_ = token.NoPos
+}
+
+// the azblob SDK's ServiceCodeType constants (module cache, v0.13.0)
+func sdkCodesFact(f *facts) {
+	dir := ""
+	for _, root := range []string{os.Getenv("GOMODCACHE"), filepath.Join(os.Getenv("HOME"), "go", "pkg", "mod"), "/root/go/pkg/mod"} {
+		p := filepath.Join(root, "github.com", "!azure", "azure-storage-blob-go@v0.13.0", "azblob")
+		if st, err := os.Stat(p); err == nil && st.IsDir() {
+			dir = p
+			break
+		}
+	}
+	re := regexp.MustCompile(`ServiceCode\w+\s+ServiceCodeType\s*=\s*"([^"]*)"`)
+	set := map[string]bool{}
+	files, _ := filepath.Glob(filepath.Join(dir, "*.go"))
+	for _, fn := range files {
+		data, _ := os.ReadFile(fn)
+		for _, m := range re.FindAllStringSubmatch(string(data), -1) {
+			if m[1] != "" {
+				set[m[1]] = true
+			}
+		}
+	}
+	var out []string
+	for k := range set {
+		out = append(out, k)
+	}
+	sort.Strings(out)
+	f.strList("sdk_serviceCodes", out)
+	if len(out) == 0 {
+		f.errs = append(f.errs, "azblob service codes not found in the module cache")
+	}
 }
